@@ -77,8 +77,39 @@ def enc_struct(names, positions):
     return [[[chars(n), chars(p)] for n, p in zip(an, ap)] for an, ap in zip(names, positions)]
 
 
+def _sig_of(text):
+    """the signature object the public decorator builds for a signature text"""
+    from xgcm.grid_ufunc import as_grid_ufunc
+
+    def f(*a):
+        return a
+
+    if text.replace(" ", "") == "":
+        raise ValueError("empty signature")       # an empty string means "use the type hints" to the decorator
+    return as_grid_ufunc(signature=text)(f).signature
+
+
+def _struct_from_text(printed):
+    """fallback when the signature object does not expose its parts: read them back from its printed form"""
+    def side(t):
+        args = []
+        for a in t.strip()[1:-1].split("),(") if t.strip() else []:
+            args.append([[list(p.split(":")[0]), list(p.split(":")[1])] for p in a.split(",") if p])
+        return args
+
+    l, r = printed.split("->")
+    return side(l), side(r)
+
+
+def _parts(sig):
+    try:
+        return enc_struct(sig.in_ax_names, sig.in_ax_positions), enc_struct(sig.out_ax_names, sig.out_ax_positions)
+    except AttributeError:
+        return _struct_from_text(str(sig))
+
+
 def execute(case):
-    from xgcm.grid_ufunc import _GridUFuncSignature, as_grid_ufunc
+    from xgcm.grid_ufunc import as_grid_ufunc
 
     rec = dict(case)
     ev = case["ev"]
@@ -86,20 +117,18 @@ def execute(case):
         if ev == "Parse":
             text = "".join(case["text"])
             try:
-                sig = _GridUFuncSignature.from_string(text)
+                sig = _sig_of(text)
             except ValueError as ex:
                 rec["out"] = {"k": "rejected", "cls": "ValueError"}
                 return rec
             printed = str(sig)
-            re2 = _GridUFuncSignature.from_string(printed)
-            same = (re2.in_ax_names, re2.in_ax_positions, re2.out_ax_names, re2.out_ax_positions) == (
-                sig.in_ax_names, sig.in_ax_positions, sig.out_ax_names, sig.out_ax_positions) and str(re2) == printed
-            rec["out"] = {"k": "parsed", "ins": enc_struct(sig.in_ax_names, sig.in_ax_positions),
-                          "outs": enc_struct(sig.out_ax_names, sig.out_ax_positions), "printed": chars(printed),
-                          "reparsed_equal": bool(same)}
+            re2 = _sig_of(printed)
+            same = _parts(re2) == _parts(sig) and str(re2) == printed
+            ins, outs = _parts(sig)
+            rec["out"] = {"k": "parsed", "ins": ins, "outs": outs, "printed": chars(printed), "reparsed_equal": bool(same)}
         elif ev == "Equiv":
-            a = _GridUFuncSignature.from_string("".join(case["a"]))
-            b = _GridUFuncSignature.from_string("".join(case["b"]))
+            a = _sig_of("".join(case["a"]))
+            b = _sig_of("".join(case["b"]))
             rec["out"] = {"k": "bool", "v": bool(a.equivalent(b))}
         elif ev == "Hints":
             from typing import Annotated, Tuple
@@ -121,20 +150,25 @@ def execute(case):
 
             f.__annotations__ = dict(params, **{"return": ret})
             g = as_grid_ufunc()(f)
-            sig = g.signature
-            rec["out"] = {"k": "parsed", "ins": enc_struct(sig.in_ax_names, sig.in_ax_positions),
-                          "outs": enc_struct(sig.out_ax_names, sig.out_ax_positions)}
+            pi, po = _parts(g.signature)
+            rec["out"] = {"k": "parsed", "ins": pi, "outs": po}
         elif ev == "Select":
+            # through the public operator: a one-axis grid whose axis has the two positions, data on the first
+            import numpy as np
+            import xarray as xr
             import xgcm
-            from xgcm import gridops
-            from xgcm.grid import _select_grid_ufunc
 
             name = "".join(case["axis"])
-            sig = _GridUFuncSignature.from_string(f"({name}:{case['from']})->({name}:{case['to']})")
+            f_, t_ = case["from"], case["to"]
+            n = 3
+            L = {"center": n, "left": n, "right": n, "inner": n - 1, "outer": n + 1}
+            ds = xr.Dataset(coords={"df": ("df", np.arange(L[f_]) * 1.0), "dt": ("dt", np.arange(L[t_]) * 1.0)})
+            grid = xgcm.Grid(ds, coords={name: {f_: "df", t_: "dt"}}, periodic=False, autoparse_metadata=False)
+            da = xr.DataArray(np.arange(L[f_]) * 1.0, dims=["df"])
             try:
-                _select_grid_ufunc(case["op"], sig, module=gridops)
+                getattr(grid, case["op"])(da, name, to=t_)
                 rec["out"] = {"k": "found"}
-            except NotImplementedError:
+            except (NotImplementedError, ValueError):
                 rec["out"] = {"k": "notfound"}
     except Exception as ex:
         rec["out"] = model.encode_error(ex)
